@@ -215,7 +215,7 @@ SOURCE_TIES = {
         "theorems": ["c05_source_is_model", "c05_source_roundtrip", "c05_source_total"],
         # SrcTie_case : <the run's case type> -> N, bit 0 = the translated source
         # disagrees with what the implementation returned
-        "eval": """From Tab Require Import Run.Glue Run.C05Run Base.GoSem.
+        "eval": """From Tab Require Import Run.Glue Run.C05Run Run.C05R6Run Base.GoSem.
 From SrcTie Require Import Generated.CsvSrc.
 Definition src_render_string (v : view) : fres (list N) :=
   match src_RenderTo v with
@@ -226,8 +226,11 @@ Definition src_render_string (v : view) : fres (list N) :=
   end.
 Definition fres_eqb (a : fres (list N)) (b : res (list N)) : bool :=
   match a with Done r => res_eqb bytes_eqb r b | OutOfFuel => false end.
-Definition SrcTie_case (c : c05session) : N :=
-  code (C05s_each (fun v obs => fres_eqb (src_render_string v) obs) c) true.
+(* steps rendered into a string or a buffer are judged; steps into a destination with
+   limited room (Some b) are left to the model-side correspondence *)
+Definition SrcTie_case (c : c05x) : N :=
+  code (C05x_each (fun v st => let '(_, dest, obs, _) := st in
+                               match dest with None => fres_eqb (src_render_string v) obs | Some _ => true end) c) true.
 """,
     },
     "C08": {
